@@ -155,6 +155,9 @@ def run(ctx, res):
         ta, tb = ctx.rng.sample(['INTEGER', 'DOUBLE', 'BOOLEAN', 'DATE', 'TEXT', 'DECIMAL(10,2)'], 2)
         c = mapcase.gen_shard_case(ctx.rng)
         c['cfg']['nquads'] = False
+        c.pop('section_file_path', None)
+        for s_ in c['sources']:
+            s_.setdefault('table', 'people'); s_.setdefault('db', 'A' if s_['key'] == 'S0' else 'B')
         for t in c['doc']:
             t['classes'] = []
             t['poms'] = [p for p in t['poms'] if p['objs'][0]['m']['k'] == 'ref'][:1]
